@@ -7,7 +7,7 @@ from .. import grouplab as G
 ID = "C03"
 LEVEL = "exploration"
 RULE = ("same-size families: every multiset of n files (n<=3 quick, <=5 thorough) over the variants {base, flipped at 0, "
-        "at L/2, at L-1, at 4096} for L in {1,4096,4097,65536,131073}, laid out over 1-3 directories and 1-2 roots, with "
+        "at L/2, at L-1, at 4096} for L in {1,4096,4097,65536,131073}, laid out over 1-3 directories and 1-2 roots (one layout puts the second root on a loop-mounted ext4 image, i.e. a second device with its own hashing pool), with "
         "optional hard links and repeated / overlapping roots; x replication filter {default, --rf-over 0/2/3, "
         "--rf-under 2/3, --unique} x prefix/suffix sizes, disk kind (thorough: hash, cache, -t 1, transform keep). "
         "Oracle: independent partition of the scanned files by bytes + replica count + strict filter; the reported set of "
@@ -36,6 +36,8 @@ LAYOUTS = [
     ("repeated_root", [("r1", "d1"), ("r1", "d2")], ["r1", "r1"]),
     ("overlapping_roots", [("r1", "d1"), ("r1", "d2")], ["r1", "r1/d1"]),
     ("file_roots", [("r1", "d1"), ("r1", "d2")], None),   # every file given explicitly
+    # r2 is a loop-mounted ext4 image: a second device in fclones' own device table, hashed by its own thread pool
+    ("two_devices", [("r1", "d1"), ("r2", "d2")], ["r1", "r2"]),
 ]
 
 
@@ -53,7 +55,7 @@ def build_tree(L, combo, layout, hard):
         tree.append({"p": p, "k": "file", "c": v})
         paths.append(p)
     if hard:
-        root, d = places[-1]
+        root, d = places[0] if name == "two_devices" else places[-1]   # a hard link cannot cross devices
         tree.append({"p": "%s/%s/hl0" % (root, d), "k": "hard", "to": paths[0]})
         paths.append("%s/%s/hl0" % (root, d))
     if roots is None:
@@ -114,7 +116,22 @@ def cases(tier, seed):
 
 def evaluate(case):
     meta = case["meta"]
-    obs = G.run_group(case)
+    if meta["layout"] == "two_devices":
+        import os
+        if not C.can_loop_mount():
+            return {"violations": [], "nontrivial": None, "outcome": "skipped_no_loop_mount"}
+        with C.Scratch() as sc:
+            os.makedirs(os.path.join(sc.tree, "r2"))
+            with C.LoopMount(os.path.join(sc.tree, "r2")):
+                obs = G.run_group(case, scratch=sc)
+                obs["files"] = G.scan_reference(sc.tree, case)
+    else:
+        obs = G.run_group(case)
+    return judge(case, obs)
+
+
+def judge(case, obs):
+    meta = case["meta"]
     ref = obs["files"]
     trop = meta["tr"][0] if meta["tr"] else None
     exp = [e for e in G.expected_groups(ref, case, trop)]
